@@ -230,6 +230,16 @@ INT_FORMS = ("list-int", "tuple-int", "nd-int64", "nd-int32", "list-np-int64", "
 CALL_FORMS = ("positional", "keyword", "defaults", "same-object-twice", "host-permuted")
 
 
+# the forms a truthy / falsy `last_control` can take (the singletons, what a numpy comparison / np.all returns, 1 / 0)
+FLAG_FORMS = {"bool": bool, "np.bool_": np.bool_, "int": int, "np.int64": np.int64}
+
+
+def flag_value(last, flagform):
+    if flagform == "np.bool_:computed":       # produced by numpy itself, the way a caller decides the flag
+        return np.all(np.zeros(3) == 0) if last else np.any(np.zeros(3) != 0)
+    return FLAG_FORMS[flagform](last)
+
+
 def build_form(axis, ent, raw, last, callform):
     from qclib.gates.ucr import ucr
     from qiskit.circuit.library import RYGate, RZGate, CXGate, CZGate
@@ -255,9 +265,10 @@ def build_form(axis, ent, raw, last, callform):
     return ucr(R, raw, C, last)
 
 
-def form_case(ctx, name, axis, ent, last, vals, form, callform="positional", tie=True, wires=None):
+def form_case(ctx, name, axis, ent, last, vals, form, callform="positional", tie=True, wires=None, flagform="bool"):
     """vals: the intended angles; the library gets ANGLE_FORMS[form](vals); the ideal multiplexer is built from
-    np.asarray(raw, dtype=float) computed here"""
+    np.asarray(raw, dtype=float) computed here.  `flagform`: the type `last_control` is handed over in (`last` stays
+    the canonical Python bool: reference, tie op and the appended closing entangler are decided by it)."""
     from flatten import flatten, to_lines
     from qiskit import QuantumCircuit
     from qiskit.quantum_info import Operator
@@ -270,9 +281,17 @@ def form_case(ctx, name, axis, ent, last, vals, form, callform="positional", tie
            "form": form, "callform": callform, "vals": [float(x) for x in vals]}
     for c in ("diversity:" + name, "diversity:type:" + form, "diversity:call:" + callform):
         ctx.count(c)
+    flag = last
+    if flagform != "bool":
+        if callform == "defaults":
+            raise RuntimeError("harness: the 'defaults' call form omits the flag, it has no type")
+        key = f"ucr:flagforms:last_control:{flagform}={last}:{axis}:{ent}:k={k}:{form}:{callform}:{h:x}"
+        rep["flagform"] = flagform
+        flag = flag_value(last, flagform)
+        ctx.count(f"flagforms:last_control:{flagform}:{last}")
     before = repr(raw)
     try:
-        circ = build_form(axis, ent, raw, last, callform)
+        circ = build_form(axis, ent, raw, flag, callform)
     except Exception as e:
         ctx.fail(key + ":raises", f"{type(e).__name__}: {e}", rep)
         return
@@ -437,6 +456,22 @@ def _diversity_cases(ctx):
     for k in (1, 2, 3):
         for (axis, ent) in (("Y", "CX"), ("Y", "CZ"), ("Z", "CX")):
             sequence_case(ctx, axis, ent, k, [r.uniform(-4, 4) for _ in range(2 ** k)], [r.uniform(-4, 4) for _ in range(2 ** k)])
+    # ---- 5. type of the flag: `last_control` True / False as numpy.bool_ (constructed, and as np.all / np.any return
+    #         it), int 1 / 0 and np.int64, positionally and by keyword, on both sides of the n_qubits == 1 test (k = 0:
+    #         the flag has no effect; k >= 1: it decides the closing entangler), every axis / entangler; tied with the
+    #         canonical bool.  (`c_gate` is a class, `angles` a list: no other option of ucr has a boolean or falsy form.)
+    flag_calls = ("positional", "keyword", "host-permuted", "same-object-twice")
+    j = 0
+    for k in (0, 1, 2, 3, 4):
+        n = 2 ** k
+        for (axis, ent, last) in CONFIGS:
+            for flagform in ("np.bool_", "int", "np.bool_:computed", "np.int64"):
+                if k == 4 and flagform in ("np.bool_:computed", "np.int64"):
+                    continue
+                j += 1
+                cf = flag_calls[j % 2] if k in (0, 4) else flag_calls[j % 4]
+                form_case(ctx, "type of the last_control flag", axis, ent, last, [r.uniform(-5, 5) for _ in range(n)],
+                          ("list-float", "nd-float64")[j % 2], cf, flagform=flagform)
 
 
 def run(ctx, kmax=None):
@@ -467,7 +502,7 @@ def replay(ctx, payload):
         return
     if r.get("div"):
         form_case(ctx, r.get("name", "replay"), r["axis"], r["ent"], r["last"], r["vals"], r["form"], r.get("callform", "positional"),
-                  tie=False, wires=r.get("wires"))
+                  tie=False, wires=r.get("wires"), flagform=r.get("flagform", "bool"))
         return
     k = int(math.log2(len(r["angles"])))
     check_one(ctx, r["axis"], r["ent"], r["last"], k, r["angles"])
